@@ -48,9 +48,9 @@ CHECKS = {
             "Decides who writes the array with which value coupled to which node-set change, that a stroke decomposes into exactly one "
             "sub-edit per label recording the pixel group of its own node (the painted label: all groups), previous labels released before the painted label is claimed, that deletion happens only when no pixel remains, that pixels reach the recording primitive unchanged, and the history shape behind undo."),
     "C08": ("part", "4 C08",
-            "trigger matrix (primitive effects x annotator handlers), mutate-then-notify ordering, spacing provenance at kernel calls",
+            "trigger matrix (primitive effects x annotator handlers), mutate-then-notify ordering, spacing provenance at kernel calls, own-pixels lint of the region measurement classes",
             "Decides that every mask change of a surviving node triggers recomputation after the array was written, through one kernel with "
-            "the scale-derived spacing on both paths, that update() leaves early only for accepted reasons, that compute() keeps no memo of earlier computations that deactivation does not clear, and that the paint update shrinks overlapped nodes before the painted node is measured. No numerical equality."),
+            "the scale-derived spacing on both paths, that update() leaves early only for accepted reasons, that compute() keeps no memo of earlier computations that deactivation does not clear, that the paint update shrinks overlapped nodes before the painted node is measured, and that the per-region measurement objects look at the frame only through `== own label`. No numerical equality."),
     "C09": ("part", "4 C09",
             "trigger matrix + provenance analysis of the two frame indices at every IoU kernel call against the edge endpoints; label-value taint analysis of the kernel; def-use memo detection",
             "Decides triggers, ordering, that bulk and incremental paths hand the kernel the source's and the target's own frames for every "
@@ -67,7 +67,7 @@ CHECKS = {
     "C12": ("part", "4 C12",
             "CFG dominance and must-pass-through (validation before construction, uniqueness before renumbering, each structural validator), error-discipline check of validator verdicts, id-truthiness lint",
             "Decides the rejection half: malformed sources cannot reach construction, no validator verdict is dropped, renumbering uses one "
-            "mapping after the uniqueness check without silently losing links, renaming reads from the original container, source ids are never tested by truthiness, a structural validator can be skipped only for a reason about its own input, and a builder's header is read on every path before build()."),
+            "mapping after the uniqueness check without silently losing links, renaming reads from the original container, source ids are never tested by truthiness, a structural validator can be skipped only for a reason about its own input, a builder's header is read on every path before build(), and columns of different dtypes are combined by promotion (never cast to the first column's dtype)."),
     "C13": ("core", "4 C13",
             "fresh-destination / source-only-read discipline, time-index agreement, guard-shape of the relabel shortcut",
             "Decides the no-chaining mechanism (fresh zero destination, masks read only from the source at the written frame), the joint "
@@ -89,13 +89,13 @@ CHECKS = {
             "Decides consume<=>assign (including that every non-empty accumulator entry is flushed), no overwrite, threading and step order of the inference pipeline. Five genuine overwrite defects are "
             "listed as known findings; two unguarded stores are reviewed exceptions with witnesses."),
     "C18": ("part", "4 C18",
-            "use-based reaching definitions on the CFG of every frame loop; sibling agreement of frame keys; accumulator discipline",
+            "use-based reaching definitions on the CFG of every frame loop; sibling agreement of frame keys; accumulator discipline; provenance of the container / scale handed to the node extractors",
             "Decides the gap clause: no loop-carried source variable can survive an iteration un-refreshed; both siblings select node sets "
-            "by (frame, frame+1); the IoU table accumulates; the IoU kernel does no arithmetic on labels in the image dtype. Not distances or IoU values."),
+            "by (frame, frame+1); the IoU table accumulates; the IoU kernel does no arithmetic on labels in the image dtype; the builders hand the caller's own container and scale to the extractors (no crop, re-ordering or dropped scale), a given scale is replaced by unit spacing only when it is None, and a node's time attribute is the frame it is filed under. Not distances or IoU values."),
     "C19": ("part", "4 C19",
-            "monotone-form check of the running offset, dtype discipline, fresh-destination per-frame masking of relabel-by-track",
+            "monotone-form check of the running offset, dtype discipline, fresh-destination per-frame masking of relabel-by-track, producer/consumer agreement on the time attribute",
             "Decides that the offset never decreases, that every path into the frame loop has widened the labels to 64 bit and the result stays wide, and that relabel-by-track "
-            "writes per-frame source-only masks into a fresh zero array, one label per component."),
+            "writes per-frame source-only masks into a fresh zero array, one label per component, and that the time attribute it indexes the array with is, at its producers, the frame index of the caller's own (un-cropped) array."),
     "C20": ("whole", "4 C20",
             "per-path counting of signal emissions in user-action constructors (nested actions inlined) and the undo/redo facade; who-may-emit",
             "Decides the counting statement per path: 1 emission for a top-level success, 0 when nested or refused, emission last and "
